@@ -185,7 +185,9 @@ static void enc_run(int Fs, int ch, int app, const vop *ops, int nops, vrng *r)
       case 'E': {
          long n = (o->fsz > 0 && o->fsz <= 200000) ? (long)o->fsz * ch : 0;   /* exact-size block: the encoder may read frame_size samples */
          opus_int16 *pcm = (opus_int16 *)malloc(n > 0 ? n * sizeof(opus_int16) : 2);
-         int pseed = o->v ? o->v : (int)(vnext(r) % 1000000 + 1);   /* the signal is a function of (sig, pseed): a history replays alone */
+         /* the signal is a function of (sig, pseed): a history replays alone (fmt != 0 marks a replayed op; generators
+            leave fmt = 0 and may leave a stale v) */
+         int pseed = o->fmt ? o->v : (int)(vnext(r) % 1000000 + 1);
          int efmt = 0;
          { vrng pr; pr.s = (uint64_t)pseed * 0x9E3779B97F4A7C15ULL + (uint64_t)o->sig; if (n > 0) gen_pcm(&pr, pcm, o->fsz, ch, o->sig); }
          printf(" E%d:%d", o->fsz, o->bytes); fflush(stdout);
